@@ -5,7 +5,7 @@ from core import Case
 from pyerr import canon_call
 
 PROP = 'C11'
-COQ_TARGETS = ['theories/SsmFacts.vo', 'theories/SsmC11.vo']
+COQ_TARGETS = ['theories/SsmFacts.vo', 'theories/SsmC11.vo', 'theories/SsmC11s.vo']
 COQ_IMPORTS = S.COQ_IMPORTS
 RULE = ('cases: 1..40 concurrent requests from one or two clients over 1..4 servers, application-chosen invoke ids colliding across '
         'peers (and within one peer: refused), answers delayed up to 4 s so that retransmissions meet a transaction still being '
